@@ -4,6 +4,7 @@ from __future__ import annotations
 
 from abc import ABC
 from contextlib import suppress
+from copy import copy
 from functools import partial
 from typing import TYPE_CHECKING
 from typing import Awaitable
@@ -87,9 +88,24 @@ class CachingLoaderMixin(ABC, _CachingLoaderProtocol):
             self.cache[cache_key] = template
             return template
 
-        if globals is not None:
-            cached_template.globals = globals
-        return cached_template
+        return self._bind(cached_template, globals)
+
+    @staticmethod
+    def _bind(
+        cached_template: BoundTemplate,
+        globals: Optional[Mapping[str, object]],  # noqa: A002
+    ) -> BoundTemplate:
+        """Return the cached template bound to the globals of this request.
+
+        The cached object is shared with everyone who asked for this template
+        before, and they might render it again, so it is never modified. A
+        request with other globals gets a shallow copy (sharing the parse tree).
+        """
+        if globals is None or cached_template.globals == globals:
+            return cached_template
+        template = copy(cached_template)
+        template.globals = globals
+        return template
 
     async def _check_cache_async(
         self,
@@ -110,9 +126,7 @@ class CachingLoaderMixin(ABC, _CachingLoaderProtocol):
             self.cache[cache_key] = template
             return template
 
-        if globals is not None:
-            cached_template.globals = globals
-        return cached_template
+        return self._bind(cached_template, globals)
 
     def load(
         self,
